@@ -540,34 +540,175 @@ func read(s *S, rv reflect.Value) *V {
 	panic("read: bad kind " + s.K)
 }
 
-// canon identifies what JSON cannot distinguish: nil and empty slices / maps (as the binary codec does).
-func canon(s *S, v *V) *V {
+// ---- the documented result of JSONDecode(JSONEncode(v)) ----
+//
+// The JSON/map form does not hand every Go value back bit for bit.  What the code does, and what the round-trip
+// oracle therefore expects exactly (design/C01b.md, "Values that come back different"):
+//   - a nil slice / nil []byte is written as [] / "" and comes back empty and non-nil; a nil map is written as {}
+//     and comes back empty and non-nil;
+//   - an `omitempty` field whose value reflect.Value.IsZero regards as zero (or an empty slice) is not written and
+//     the decoder leaves the zero value there, except that a nil slice becomes an empty one: a nil map, nil
+//     pointers, time.Time{}, -0 (IsZero compares floats with == 0: it comes back as +0) and a zero struct with
+//     nil slices inside come back as the plain zero value;
+//   - an `optional` nil pointer / interface is not written and stays nil;
+//   - a time before the Unix epoch (time.Time{} included) is written as "0" (serializer.TimeToUint64) and comes back
+//     as the epoch;
+//   - a float comes back as strconv.ParseFloat(strconv.FormatFloat(v)): every NaN as the canonical quiet NaN,
+//     -0 (outside omitempty) as -0.
+
+func allZero(b []byte) bool {
+	for _, x := range b {
+		if x != 0 {
+			return false
+		}
+	}
+
+	return true
+}
+
+// goIsZero is reflect.Value.IsZero of the value.
+func goIsZero(s *S, v *V) bool {
+	switch s.K {
+	case "bool":
+		return v.K == "F"
+	case "u", "i":
+		return v.N.Sign() == 0
+	case "f":
+		return floatOf(s.W, v.Bits) == 0
+	case "str":
+		return v.S == ""
+	case "barr", "tb":
+		if s.P || s.N < 0 {
+			return v.K == "nil"
+		}
+
+		return allZero(v.Bs)
+	case "arr":
+		for _, e := range v.L {
+			if !goIsZero(s.E, e) {
+				return false
+			}
+		}
+
+		return true
+	case "struct":
+		for i, f := range s.Fields {
+			e := v.L[i]
+			if f.Mode == "emb" && f.P {
+				if e.K != "nil" {
+					return false
+				}
+
+				continue
+			}
+			if !goIsZero(f.T, e) {
+				return false
+			}
+		}
+
+		return true
+	default: // bytes, slice, map, u256, time, ptr, iface: nil (time: time.Time{})
+		return v.K == "nil"
+	}
+}
+
+// isValueEmpty is serix's API.isValueEmpty: IsZero, or a slice of length 0.
+func isValueEmpty(s *S, v *V) bool {
+	if goIsZero(s, v) {
+		return true
+	}
+	switch s.K {
+	case "slice":
+		return v.K == "l" && len(v.L) == 0
+	case "bytes":
+		return v.K == "x" && len(v.Bs) == 0
+	case "tb":
+		return !s.P && s.N < 0 && v.K == "x" && len(v.Bs) == 0
+	}
+
+	return false
+}
+
+func goZeroValue(s *S) *V {
+	switch s.K {
+	case "bool":
+		return &V{K: "F"}
+	case "u", "i":
+		return num(0)
+	case "f":
+		return &V{K: "f", W: s.W}
+	case "str":
+		return &V{K: "s"}
+	case "barr", "tb":
+		if s.P || s.N < 0 {
+			return &V{K: "nil"}
+		}
+
+		return &V{K: "x", Bs: make([]byte, s.N)}
+	case "arr":
+		v := &V{K: "l", L: []*V{}}
+		for i := 0; i < s.N; i++ {
+			v.L = append(v.L, goZeroValue(s.E))
+		}
+
+		return v
+	case "struct":
+		v := &V{K: "st", L: []*V{}}
+		for _, f := range s.Fields {
+			if f.Mode == "emb" && f.P {
+				v.L = append(v.L, &V{K: "nil"})
+			} else {
+				v.L = append(v.L, goZeroValue(f.T))
+			}
+		}
+
+		return v
+	}
+
+	return &V{K: "nil"}
+}
+
+// missingValue is what a fresh decode target holds for an optional / omitempty field whose key is missing.
+func missingValue(s *S) *V {
+	switch s.K {
+	case "slice":
+		return &V{K: "l", L: []*V{}}
+	case "bytes":
+		return &V{K: "x"}
+	case "tb":
+		if !s.P && s.N < 0 {
+			return &V{K: "x"}
+		}
+	}
+
+	return goZeroValue(s)
+}
+
+// expect is the documented result of decoding the encoding of v.
+func expect(s *S, v *V) *V {
 	c := *v
 	switch s.K {
 	case "f":
-		if v.Bits == uint64(1)<<(s.W-1) {
-			c.Bits = 0
-		}
+		_, c.Bits = floatText(s.W, v.Bits)
 	case "bytes":
 		if v.K == "nil" {
 			return &V{K: "x"}
 		}
 	case "tb":
-		if v.K == "nil" && s.N < 0 {
+		if v.K == "nil" && s.N < 0 && !s.P {
 			return &V{K: "x"}
 		}
-	case "slice":
+	case "time":
+		if v.K == "nil" || v.N.Sign() < 0 {
+			return num(0)
+		}
+	case "slice", "arr":
 		if v.K == "nil" {
-			return &V{K: "l"}
+			return &V{K: "l", L: []*V{}}
 		}
-		c.L = nil
+		c.L = []*V{}
 		for _, e := range v.L {
-			c.L = append(c.L, canon(s.E, e))
-		}
-	case "arr":
-		c.L = nil
-		for _, e := range v.L {
-			c.L = append(c.L, canon(s.E, e))
+			c.L = append(c.L, expect(s.E, e))
 		}
 	case "map":
 		if v.K == "nil" {
@@ -575,31 +716,37 @@ func canon(s *S, v *V) *V {
 		}
 		c.M = nil
 		for _, e := range v.M {
-			c.M = append(c.M, [2]*V{canon(s.KT, e[0]), canon(s.E, e[1])})
+			c.M = append(c.M, [2]*V{expect(s.KT, e[0]), expect(s.E, e[1])})
 		}
 	case "struct":
-		c.L = nil
+		c.L = []*V{}
 		for i, f := range s.Fields {
 			e := v.L[i]
-			if f.Mode == "emb" && f.P {
+			switch {
+			case f.Mode == "emb" && f.P:
 				if e.K == "some" {
-					e = &V{K: "some", X: canon(f.T, e.X)}
+					e = &V{K: "some", X: expect(f.T, e.X)}
 				}
 				c.L = append(c.L, e)
-
-				continue
+			case f.Mode != "fld":
+				c.L = append(c.L, expect(f.T, e))
+			case f.Omit && isValueEmpty(f.T, e):
+				c.L = append(c.L, missingValue(f.T))
+			case f.Opt && e.K == "nil":
+				c.L = append(c.L, missingValue(f.T))
+			default:
+				c.L = append(c.L, expect(f.T, e))
 			}
-			c.L = append(c.L, canon(f.T, e))
 		}
 	case "ptr":
 		if v.K == "some" {
-			c.X = canon(s.E, v.X)
+			c.X = expect(s.E, v.X)
 		}
 	case "iface":
 		if v.K == "if" {
 			for _, a := range s.Alts {
 				if a.Code == v.Code {
-					c.X = canon(a.T, v.X)
+					c.X = expect(a.T, v.X)
 				}
 			}
 		}
@@ -607,6 +754,57 @@ func canon(s *S, v *V) *V {
 
 	return &c
 }
+
+// allHard returns "bigint-range" if a big.Int outside 0 <= n < 2^256 occurs anywhere in the value: EncodeUint256
+// writes it, DecodeUint256 refuses it - the one kind of value for which the oracle expects no result.
+func allHard(s *S, v *V) string {
+	if s == nil || v == nil {
+		return ""
+	}
+	switch s.K {
+	case "u256":
+		if v.K == "n" && (v.N.Sign() < 0 || v.N.BitLen() > 256) {
+			return "bigint-range"
+		}
+	case "slice", "arr":
+		for _, e := range v.L {
+			if r := allHard(s.E, e); r != "" {
+				return r
+			}
+		}
+	case "map":
+		for _, e := range v.M {
+			if r := allHard(s.E, e[1]); r != "" {
+				return r
+			}
+		}
+	case "struct":
+		for i, f := range s.Fields {
+			e := v.L[i]
+			if f.Mode == "emb" && f.P {
+				e = e.X
+			}
+			if r := allHard(f.T, e); r != "" {
+				return r
+			}
+		}
+	case "ptr":
+		return allHard(s.E, v.X)
+	case "iface":
+		if v.K == "if" {
+			for _, a := range s.Alts {
+				if a.Code == v.Code {
+					return allHard(a.T, v.X)
+				}
+			}
+		}
+	}
+
+	return ""
+}
+
+// hardReason: the only values whose encoding cannot be decoded at all (the oracle expects nothing for them).
+func hardReason(r string) bool { return r == "bigint-range" || r == "non-utf8" }
 
 // soft reasons leave the round trip intact up to canon (nil = empty collection, -0 = +0 as Go floats).
 func isSoft(r string) bool { return r == "nil-collection" || r == "neg-zero" }
